@@ -57,7 +57,7 @@ def _container(draw, thresholds, min_n=0, max_n=60, positive=False):
         # every other channel of a sample has twice the range (see _materialise): move its top values along
         cells = [[(v + R if (j % 2 == 1 and v in (R - 2, R - 1)) else v) for j, v in enumerate(row)] for row in cells]
     names = draw(st.lists(st.sampled_from([n for n in NAME_POOL if n != 'Time']), min_size=D, max_size=D, unique=True))
-    return dict(kind=kind, D=D, R=R, cells=cells, names=names, via=draw(st.sampled_from([None, None, None, 'handle'])),
+    return dict(kind=kind, D=D, R=R, cells=cells, names=names, via=draw(st.sampled_from([None, None, None, 'handle'])), big=draw(st.booleans()),
                 derived=draw(st.sampled_from([None, None, None, ['slice', 1], ['list', 2], ['perm', 1], ['permname', 2]])))
 
 
@@ -68,7 +68,7 @@ def _materialise(c):
         return np.array(cells, dtype=np.float64).reshape((len(cells), D)), None
     if kind == 'array_i':
         return np.array(cells, dtype=np.int64).reshape((len(cells), D)), None
-    spec = dict(version='FCS3.0', datatype='I' if kind == 'sample_i' else 'D', byteord='1,2,3,4',
+    spec = dict(version='FCS3.0', datatype='I' if kind == 'sample_i' else 'D', byteord='4,3,2,1' if c.get('big') else '1,2,3,4',
                 widths=[16 if kind == 'sample_i' else 64] * D, ranges=[R * (1 + j % 2) for j in range(D)],
                 names=c['names'], events=cells, pne=['0,0'] * D,          # every other channel has twice the range
                 load_via=c.get('via'))
